@@ -82,7 +82,7 @@ func (c06) Generate(r *core.Rng, run int, tier string) *core.History {
 		case c < 10:
 			ev(core.Pick(r, []string{"nest-arr", "nest-arr", "nest-arr-func"}), "h", an, 0, 0, an2)
 		case c < 11:
-			ev(core.Pick(r, []string{"nest-map", "nest-map", "nest-map-func"}), "h", an, 0, 0, mn)
+			ev(core.Pick(r, []string{"nest-map", "nest-map", "nest-map-func", "nest-catch-func"}), "h", an, 0, 0, mn)
 		case c < 14:
 			ev("idx-assign", an, "", idx, 0)
 		case c < 16:
@@ -237,6 +237,14 @@ func (c06) Execute(h *core.History) *core.Outcome {
 				m["h"] = &val{kind: "map", m: map[string]*val{"p": x.clone(), "q": y.clone()}}
 				src = "h = (() => { {\"p\": " + e.Key + ", \"q\": " + e.Args[0] + "} })()"
 			}
+		case "nest-catch-func":
+			// catch() of an outer binding from inside a function: its result map must hold the value, not a reference
+			x := m[e.Key]
+			if x == nil {
+				continue
+			}
+			m["h"] = &val{kind: "map", m: map[string]*val{"err": {kind: "bool"}, "value": x.clone()}}
+			src = "h = (() => catch(" + e.Key + "))()"
 		case "nest-map":
 			x, y := m[e.Key], m[e.Args[0]]
 			if x == nil || y == nil {
